@@ -28,6 +28,10 @@
      RemoveEdges(kept)    removeEdgeAssemblies(core): EVERYTHING on the 120-degree line is purged
                           (Core.removeAssembly(a, discharge=False)), whoever put it there; reset() of that changer
      RemoveEdgesFullCore  full core: returns at once (the changer is not reset)
+     ScaleParams          EdgeAssemblyChanger.scaleParamsRelatedToSymmetry(core) with something to do: see the action
+     ScaleParamsNothing   ... with nothing flagged or no pair of line assemblies: nothing changes
+                          (both only in a third core: the call is meant for a core that carries its edge assemblies)
+     Solve(f)             stands for the flux solve between add and scale: assigns every valued volume-integrated parameter
 
    Core.add(a, loc)  = child list, childrenByLocator[loc], assembliesByName, blocksByName, fresh name from the
                        reactor's counter (the copy carries a negative placeholder number), Assembly.moveTo(loc),
@@ -54,12 +58,16 @@
      nextNum    Reactor.p.maxAssemNum
      added      ThirdCoreHexToFullCoreChanger._newAssembliesAdded (names);  conv: that changer has converted
      ecAdded    the long-lived EdgeAssemblyChanger's _newAssembliesAdded is non-empty
-     gflag      GHOST of the implementation, ignored by the reference (I5): the SINCE_LAST_GEOMETRY_TRANSFORMATION
-                assignment flag of the volume-integrated parameter definitions (set by every Core.add / removeAssembly,
-                cleared at the end of addEdgeAssemblies).  Carried only so that histories that differ in it are different
-                nodes of the graph that is replayed into the code (the code consults it, see D1).
-     lcache     GHOST, likewise: the converting changer has already computed (and keeps) its list of parameters to scale,
-                i.e. it has converted a core with a centre assembly before.
+     gflag      the SINCE_LAST_GEOMETRY_TRANSFORMATION assignment flag of the (valued) volume-integrated parameter
+                definitions: set by every assignment (Solve, an effective ScaleParams) and -- because Core.add and
+                Core.removeAssembly re-raise every flag of a parameter that was ever assigned -- by every step that adds or
+                removes an assembly; cleared at the END of addEdgeAssemblies.  scaleParamsRelatedToSymmetry scales exactly the
+                flagged parameters.  (convert() no longer consults it since D1 was repaired.)
+     at[c].fx   the scalar fluxes (flux, fluxAdj, fluxGamma) of this object are as built / as solved; FALSE once
+                scaleParamsRelatedToSymmetry has recomputed them from the combined multigroup fluxes
+     touched, flow, trip, preEdge   history variables for the invariants (a parameter write has happened; progress through
+                add ; solve ; scale ; remove  resp.  add ; scale ; remove; the core as it was when the edges were added)
+     sf0[o]     symmetry factor original o had in the initial state (the built values describe that fraction of it)
      pat, base  constants of a behaviour: the loading pattern (sorted cells) and the edge-free third-core model
      preConv    the core as it was when Convert was last called (for the literal restore clause, see I2)
      act        the call just made and the branch taken (label of the edge; hidden by the VIEWs)
@@ -81,6 +89,10 @@
      adding then removing edge assemblies returns the previous state ............... EdgesRoundTrip, BaseConstant
      location and name lookups resolve as before / never a purged assembly ......... LookupsTruthful
      all sequences of convert / restore / add-edge / remove-edge ................... BaseConstant (state invariant)
+     ... also through scaleParamsRelatedToSymmetry, as the converter is used ....... EdgesScaleRoundTrip (add ; scale ; remove
+                                                                                      = identity on every parameter),
+                                                                                      AddEdgesClearsFlags, HalvesCombine
+                                                                                      (add ; solve ; scale ; remove)
      (auxiliary) TypeOK, SymmetryConsistent, EdgeCopiesAreHalves
 
    INTERPRETATION CHOICES
@@ -125,8 +137,10 @@ CONSTANTS Dom,        \* candidate cells of the third-core model (first third, 1
           Go,         \* enabling condition of every action (depth bound in the model-checking configs, TRUE otherwise)
           MaxLevel
 
-VARIABLES sym, at, byLoc, byName, byBlk, nextNum, added, conv, ecAdded, gflag, lcache, pat, base, preConv, act
-vars == <<sym, at, byLoc, byName, byBlk, nextNum, added, conv, ecAdded, gflag, lcache, pat, base, preConv>>
+VARIABLES sym, at, byLoc, byName, byBlk, nextNum, added, conv, ecAdded, gflag, touched, flow, trip, preEdge,
+          pat, base, sf0, preConv, act
+vars == <<sym, at, byLoc, byName, byBlk, nextNum, added, conv, ecAdded, gflag, touched, flow, trip, preEdge, pat, base, sf0, preConv>>
+hist == <<touched, flow, trip, preEdge>>      \* history variables: read by invariants only
 
 (* ------------------------------------------------ geometry ------------------------------------------------ *)
 O == "flat"                                        \* armi core grids are flats-up; the index algebra is the same for both
@@ -156,7 +170,14 @@ RingPosLess(a, b)  == LET p == AlgRingPos(a)  q == AlgRingPos(b)            \* g
 
 (* -------------------------------------------- the core as a value -------------------------------------------- *)
 NoNum == -1
-NoAsm == [num |-> NoNum, o |-> 0, k |-> 0, ps |-> RZero]
+NoAsm == [num |-> NoNum, o |-> 0, k |-> 0, ps |-> RZero, fx |-> TRUE]
+\* parameter scales: a rational, or Mixed when scaleParamsRelatedToSymmetry has added the values of an assembly of ANOTHER
+\* origin (the result is then not a multiple of the built values; it is not projected)
+Mixed        == <<0, 0>>
+IsMixed(p)   == p[2] = 0
+PMulI(p, n)  == IF IsMixed(p) THEN Mixed ELSE RMul(p, RInt(n))
+PDivI(p, n)  == IF IsMixed(p) THEN Mixed ELSE RDiv(p, RInt(n))
+PAdd(p, q)   == IF IsMixed(p) \/ IsMixed(q) THEN Mixed ELSE RAdd(p, q)
 Cur   == [at |-> at, loc |-> byLoc, nm |-> byName, bk |-> byBlk, nn |-> nextNum]
 Occ(K)      == {cc \in All : K.at[cc].num # NoNum}
 EdgeOcc(K)  == {cc \in Occ(K) : Line(cc) = 3}
@@ -177,24 +198,38 @@ PurgeSet(K, S)  == FoldLeft(PurgeOne, K, SortedCells(S))
 
 \* deepcopy(source) ; makeUnique ; Core.add(copy, t)  -- the target must be free (Core.add refuses a filled location)
 PlaceCopy(K, src, t, kind) ==
-    LET r == [num |-> K.nn, o |-> K.at[src].o, k |-> kind, ps |-> K.at[src].ps] IN
+    LET r == [num |-> K.nn, o |-> K.at[src].o, k |-> kind, ps |-> K.at[src].ps, fx |-> K.at[src].fx] IN
     IF K.at[t].num # NoNum \/ K.loc[t] # NoNum
     THEN Assert(FALSE, <<"Core.add to a filled location", t>>)
     ELSE [K EXCEPT !.at[t] = r, !.loc[t] = K.nn, !.nm = @ \cup {K.nn}, !.bk = @ \cup {K.nn}, !.nn = @ + 1]
 \* ... followed by Assembly.moveTo's rescaling with the factor the cell has once the copy sits there (third core)
 PlaceEdge(K, src, t) ==
     LET K1 == PlaceCopy(K, src, t, 3) IN
-    [K1 EXCEPT !.at[t].ps = RDiv(@, RInt(SFk(K1, "third", t)))]
+    [K1 EXCEPT !.at[t].ps = PDivI(@, SFk(K1, "third", t))]
 
 GrowOne(K, cc) == IF cc = Centre THEN K
                   ELSE PlaceCopy(PlaceCopy(K, cc, Rot3(1, cc), 1), cc, Rot3(2, cc), 2)
 AddOneEdge(K, cc) == LET t == Rot3(1, cc) IN IF K.loc[t] # NoNum THEN K ELSE PlaceEdge(K, cc, t)
 
 \* the edge-free third-core model under a state
+\* scaleParamsRelatedToSymmetry pairs the two lines by rank: zip(0-degree line, 120-degree line), each sorted by (ring, pos)
+LowerSeq(K)  == SetToSortSeq(LowerOcc(K), RingPosLess)
+UpperSeq(K)  == SetToSortSeq(EdgeOcc(K), RingPosLess)
+NPairs(K)    == IF Len(LowerSeq(K)) <= Len(UpperSeq(K)) THEN Len(LowerSeq(K)) ELSE Len(UpperSeq(K))
+\* every 0-degree-line assembly has its identical image on the 120-degree line, and the code's factor rule sees them as halves
+FullyPaired(K) == /\ Len(LowerSeq(K)) = Len(UpperSeq(K)) /\ Len(LowerSeq(K)) > 0
+                  /\ K.loc[UpperEdge] # NoNum
+                  /\ \A x \in 1..Len(LowerSeq(K)) : /\ K.at[LowerSeq(K)[x]].o = K.at[UpperSeq(K)[x]].o
+                                                     /\ UpperSeq(K)[x] = Rot3(1, LowerSeq(K)[x])
+ScaleOne(K, x) == LET l == LowerSeq(K)[x]  u == UpperSeq(K)[x] IN
+                  [K EXCEPT !.at[l].ps = IF K.at[l].o = K.at[u].o THEN PAdd(@, K.at[u].ps) ELSE Mixed,
+                            !.at[l].fx = FALSE]
+ScaleAll(K) == FoldLeft(ScaleOne, K, [x \in 1..NPairs(K) |-> x])
+
 BaseK(K, s, addedNums) ==
     IF s = "third" THEN PurgeSet(K, EdgeOcc(K))
     ELSE LET K1 == PurgeSet(K, {cc \in Occ(K) : K.at[cc].num \in addedNums})
-         IN  IF Centre \in Occ(K1) THEN [K1 EXCEPT !.at[Centre].ps = RDiv(@, RInt(3))] ELSE K1
+         IN  IF Centre \in Occ(K1) THEN [K1 EXCEPT !.at[Centre].ps = PDivI(@, 3)] ELSE K1
 
 (* ------------------------------------------------- machine ------------------------------------------------- *)
 Install(K) == at' = K.at /\ byLoc' = K.loc /\ byName' = K.nm /\ byBlk' = K.bk /\ nextNum' = K.nn
@@ -203,13 +238,15 @@ Label(n, kept, br) == [n |-> n, kept |-> kept, br |-> br]
 InitWith(P) ==
     LET cs == SortedCells(P)
         idx(cc) == CHOOSE x \in 1..Len(cs) : cs[x] = cc
-        K0 == [at  |-> [cc \in All |-> IF cc \in P THEN [num |-> idx(cc) - 1, o |-> idx(cc), k |-> 0, ps |-> ROne] ELSE NoAsm],
+        K0 == [at  |-> [cc \in All |-> IF cc \in P THEN [num |-> idx(cc) - 1, o |-> idx(cc), k |-> 0, ps |-> ROne, fx |-> TRUE] ELSE NoAsm],
                loc |-> [cc \in All |-> IF cc \in P THEN idx(cc) - 1 ELSE NoNum],
                nm  |-> 0..(Len(cs) - 1), bk |-> 0..(Len(cs) - 1), nn |-> Len(cs)]
     IN  /\ pat = cs /\ sym = "third"
         /\ at = K0.at /\ byLoc = K0.loc /\ byName = K0.nm /\ byBlk = K0.bk /\ nextNum = K0.nn
-        /\ added = {} /\ conv = FALSE /\ ecAdded = FALSE /\ gflag = TRUE /\ lcache = FALSE
+        /\ added = {} /\ conv = FALSE /\ ecAdded = FALSE /\ gflag = TRUE
+        /\ touched = FALSE /\ flow = "none" /\ trip = "" /\ preEdge = Proj(K0)
         /\ base = Proj(BaseK(K0, "third", {}))
+        /\ sf0 = [x \in 1..Len(cs) |-> SFk(K0, "third", cs[x])]
         /\ preConv = Proj(K0)
         /\ act = Label("init", FALSE, "Init")
 Init == \E P \in Patterns : InitWith(P)
@@ -220,14 +257,14 @@ Convert ==
     /\ LET K1   == PurgeSet(Cur, EdgeOcc(Cur))
            srcs == SetToSortSeq(Occ(K1), AsmOrderLess)
            K2   == FoldLeft(GrowOne, K1, srcs)
-           K3   == IF Centre \in Occ(K2) THEN [K2 EXCEPT !.at[Centre].ps = RMul(@, RInt(3))] ELSE K2
+           K3   == IF Centre \in Occ(K2) THEN [K2 EXCEPT !.at[Centre].ps = PMulI(@, 3)] ELSE K2
        IN  /\ Install(K3)
            /\ added' = K3.nm \ K1.nm
            /\ gflag' = (gflag \/ K3.nm # byName)
-           /\ lcache' = (lcache \/ Centre \in Occ(K1))
     /\ preConv' = Proj(Cur)
     /\ sym' = "full" /\ conv' = TRUE
-    /\ UNCHANGED <<ecAdded, pat, base>>
+    /\ flow' = "none" /\ trip' = ""
+    /\ UNCHANGED <<ecAdded, touched, preEdge, pat, base, sf0>>
     /\ act' = Label("convert", FALSE, "Convert")
 
 ConvertAlreadyFull ==
@@ -242,7 +279,8 @@ Restore ==
     /\ Install(BaseK(Cur, "full", added))
     /\ sym' = "third" /\ conv' = FALSE /\ added' = {}
     /\ gflag' = (gflag \/ added # {})
-    /\ UNCHANGED <<ecAdded, lcache, pat, base, preConv>>
+    /\ flow' = "none" /\ trip' = ""
+    /\ UNCHANGED <<ecAdded, touched, preEdge, pat, base, sf0, preConv>>
     /\ act' = Label("restore", FALSE, "Restore")
 
 RestoreNothing ==
@@ -259,7 +297,8 @@ AddEdges(kept) ==
        IN  /\ Install(K1)
            /\ ecAdded' = IF kept THEN K1.nn # nextNum ELSE ecAdded
     /\ gflag' = FALSE
-    /\ UNCHANGED <<sym, added, conv, lcache, pat, base, preConv>>
+    /\ flow' = "none" /\ trip' = "A" /\ preEdge' = Proj(Cur)
+    /\ UNCHANGED <<sym, added, conv, touched, pat, base, sf0, preConv>>
     /\ act' = Label("addEdges", kept, "AddEdges")
 
 AddEdgesAlreadyThere(kept) ==
@@ -280,7 +319,9 @@ RemoveEdges(kept) ==
     /\ Install(PurgeSet(Cur, EdgeOcc(Cur)))
     /\ ecAdded' = IF kept THEN FALSE ELSE ecAdded
     /\ gflag' = (gflag \/ EdgeOcc(Cur) # {})
-    /\ UNCHANGED <<sym, added, conv, lcache, pat, base, preConv>>
+    /\ flow' = (IF flow = "scaled" THEN "combined" ELSE "none")
+    /\ trip' = (IF trip = "AS" THEN "ASR" ELSE "")
+    /\ UNCHANGED <<sym, added, conv, touched, preEdge, pat, base, sf0, preConv>>
     /\ act' = Label("removeEdges", kept, "RemoveEdges")
 
 RemoveEdgesFullCore(kept) ==
@@ -289,33 +330,80 @@ RemoveEdgesFullCore(kept) ==
     /\ UNCHANGED vars
     /\ act' = Label("removeEdges", kept, "RemoveEdgesFullCore")
 
+\* EdgeAssemblyChanger.scaleParamsRelatedToSymmetry(core) (static; third core -- the call is meant for a core that carries
+\* its edge assemblies): for every pair zip(0-degree line, 120-degree line) and every block pair, each volume-integrated
+\* parameter that is ASSIGNED SINCE THE LAST GEOMETRY TRANSFORMATION and non-zero gets the twin's value added (multigroup
+\* fluxes elementwise, and the scalar flux / adjoint flux / gamma flux are recomputed from the sum: fx := FALSE).
+ScaleParams ==
+    /\ Go
+    /\ sym = "third" /\ gflag /\ NPairs(Cur) > 0
+    /\ Install(ScaleAll(Cur))
+    /\ touched' = TRUE
+    /\ flow' = (IF flow = "solved" THEN "scaled" ELSE "none")
+    /\ trip' = (IF trip = "A" THEN "AS" ELSE "")
+    /\ UNCHANGED <<sym, added, conv, ecAdded, gflag, preEdge, pat, base, sf0, preConv>>
+    /\ act' = Label("scaleParams", FALSE, "ScaleParams")
+
+\* nothing has been assigned since the last geometry transformation (the state addEdgeAssemblies leaves behind), or there is
+\* no pair: nothing changes
+ScaleParamsNothing ==
+    /\ Go
+    /\ sym = "third" /\ ~(gflag /\ NPairs(Cur) > 0)
+    /\ trip' = (IF trip = "A" THEN "AS" ELSE "")
+    /\ UNCHANGED <<sym, at, byLoc, byName, byBlk, nextNum, added, conv, ecAdded, gflag, touched, flow, preEdge, pat, base, sf0, preConv>>
+    /\ act' = Label("scaleParams", FALSE, "ScaleParamsNothing")
+
+\* what stands for the flux solve between addEdgeAssemblies and scaleParamsRelatedToSymmetry: every volume-integrated
+\* parameter (and the scalar fluxes) of every block is ASSIGNED; f[x] is the new scale of the assembly in the x-th occupied
+\* cell (sorted).  PhysSeq is what a solver writes: the whole-assembly value divided by the current symmetry factor.
+PhysPs(K, s, cc) == RFrac(sf0[K.at[cc].o], SFk(K, s, cc))
+PhysSeq == LET cs == SortedCells(Occ(Cur)) IN [x \in 1..Len(cs) |-> PhysPs(Cur, sym, cs[x])]
+Solve(f) ==
+    /\ Go
+    /\ LET cs == SortedCells(Occ(Cur)) IN
+       /\ Len(f) = Len(cs)
+       /\ \A x \in 1..Len(f) : f[x][1] > 0 /\ f[x][2] > 0
+       /\ at' = [cc \in All |-> IF cc \in Occ(Cur)
+                                THEN LET x == CHOOSE y \in 1..Len(cs) : cs[y] = cc IN [at[cc] EXCEPT !.ps = Norm(f[x][1], f[x][2]), !.fx = TRUE]
+                                ELSE at[cc]]
+    /\ gflag' = TRUE /\ touched' = TRUE
+    /\ flow' = (IF sym = "third" /\ f = PhysSeq /\ FullyPaired(Cur) THEN "solved" ELSE "none")
+    /\ trip' = ""
+    /\ UNCHANGED <<sym, byLoc, byName, byBlk, nextNum, added, conv, ecAdded, preEdge, pat, base, sf0, preConv>>
+    /\ act' = [n |-> "solve", kept |-> FALSE, br |-> "Solve", ps |-> f]
+
 \* one disjunct per CALL (what a recorded event names); the specification decides the branch
 CallConvert        == Convert \/ ConvertAlreadyFull
 CallRestore        == Restore \/ RestoreNothing
 CallAddEdges(kept) == AddEdges(kept) \/ AddEdgesAlreadyThere(kept) \/ AddEdgesFullCore(kept)
 CallRemoveEdges(kept) == RemoveEdges(kept) \/ RemoveEdgesFullCore(kept)
-Next == CallConvert \/ CallRestore \/ \E kept \in BOOLEAN : CallAddEdges(kept) \/ CallRemoveEdges(kept)
+CallScaleParams    == ScaleParams \/ ScaleParamsNothing
+Next == CallConvert \/ CallRestore \/ CallScaleParams \/ Solve(PhysSeq)
+        \/ \E kept \in BOOLEAN : CallAddEdges(kept) \/ CallRemoveEdges(kept)
 
 (* ------------------------------------------------ quantities ------------------------------------------------ *)
 NOrig == Len(pat)
 CoefOver(K, f(_)) == FoldSet(LAMBDA cc, acc : [acc EXCEPT ![K.at[cc].o] = RAdd(@, f(cc))],
                              [oo \in 1..NOrig |-> RZero], Occ(K))
 VolCoef(K, s)  == CoefOver(K, LAMBDA cc : RFrac(1, SFk(K, s, cc)))
-ParCoef(K)     == CoefOver(K, LAMBDA cc : K.at[cc].ps)
-FullCoef(K, s) == CoefOver(K, LAMBDA cc : RMul(K.at[cc].ps, RInt(SFk(K, s, cc))))
+ParCoef(K)     == CoefOver(K, LAMBDA cc : IF IsMixed(K.at[cc].ps) THEN RZero ELSE K.at[cc].ps)
+FullCoef(K, s) == CoefOver(K, LAMBDA cc : IF IsMixed(K.at[cc].ps) THEN RZero ELSE RMul(K.at[cc].ps, RInt(SFk(K, s, cc))))
+ParOk(K)       == \A cc \in Occ(K) : ~IsMixed(K.at[cc].ps)
 Times3(v)      == [oo \in DOMAIN v |-> RMul(v[oo], RInt(3))]
 BaseAsK        == [at |-> base.at, loc |-> base.loc, nm |-> base.nm, bk |-> base.bk, nn |-> 0]
 HasCentre(K)   == Centre \in Occ(K)
 Count(K)       == Cardinality(Occ(K))
 
 (* ------------------------------------------------ invariants ------------------------------------------------ *)
-AsmRecs == [num : Int, o : Nat, k : 0..3, ps : Int \X Int]
+AsmRecs == [num : Int, o : Nat, k : 0..3, ps : Int \X Int, fx : BOOLEAN]
 TypeOK ==
     /\ sym \in {"third", "full"}
     /\ at \in [All -> AsmRecs] /\ byLoc \in [All -> Int]
     /\ byName \subseteq Nat /\ byBlk \subseteq Nat /\ nextNum \in Nat /\ added \subseteq Nat
-    /\ conv \in BOOLEAN /\ ecAdded \in BOOLEAN /\ gflag \in BOOLEAN /\ lcache \in BOOLEAN
-    /\ \A cc \in Occ(Cur) : at[cc].o \in 1..NOrig /\ at[cc].ps[1] > 0 /\ at[cc].ps[2] > 0
+    /\ conv \in BOOLEAN /\ ecAdded \in BOOLEAN /\ gflag \in BOOLEAN /\ touched \in BOOLEAN
+    /\ flow \in {"none", "solved", "scaled", "combined"} /\ trip \in {"", "A", "AS", "ASR"}
+    /\ \A cc \in Occ(Cur) : at[cc].o \in 1..NOrig /\ (IsMixed(at[cc].ps) \/ (at[cc].ps[1] > 0 /\ at[cc].ps[2] > 0))
+    /\ ~touched => \A cc \in Occ(Cur) : at[cc].fx /\ ~IsMixed(at[cc].ps)
 
 SymmetryConsistent ==
     /\ conv <=> sym = "full"
@@ -334,7 +422,7 @@ CopiesRotatedIntoPlace ==
           /\ at[cc].k \in {1, 2} =>
                LET s == Rot3(3 - at[cc].k, cc) IN                  \* turn back
                /\ Rot3(at[cc].k, s) = cc
-               /\ at[s].k = 0 /\ at[s].o = at[cc].o /\ at[s].ps = at[cc].ps
+               /\ at[s].k = 0 /\ at[s].o = at[cc].o /\ (~touched => at[s].ps = at[cc].ps)
                /\ at[cc].num \in added
     /\ sym = "third" => \A cc \in Occ(Cur) :
           /\ at[cc].k \in {0, 3}
@@ -356,15 +444,34 @@ LookupsTruthful ==
 \* x3: counts (centre once), volume and mass of every nuclide, every volume-integrated total
 TimesThree == sym = "full" =>
     /\ VolCoef(Cur, "full") = Times3(VolCoef(BaseAsK, "third"))
-    /\ ParCoef(Cur) = Times3(ParCoef(BaseAsK))
+    /\ ~touched => ParCoef(Cur) = Times3(ParCoef(BaseAsK))       \* (parameters nobody has re-assigned or combined since)
     /\ Count(Cur) = IF HasCentre(BaseAsK) THEN 3 * (Count(BaseAsK) - 1) + 1 ELSE 3 * Count(BaseAsK)
 
 \* whatever the history, the edge-free third-core model under the state is the one the behaviour started from:
 \* same assemblies at the same places with the same names and parameters, same lookup tables
-BaseConstant == Proj(BaseK(Cur, sym, added)) = base
+\* (Solve and an effective ScaleParams write parameters -- that is their purpose; from then on `touched`, only the
+\*  structure is compared: which object sits where under which name, and the lookup tables)
+Struct(P) == [at |-> [cc \in All |-> <<P.at[cc].num, P.at[cc].o, P.at[cc].k>>], loc |-> P.loc, nm |-> P.nm, bk |-> P.bk]
+SameAsBase(P) == Struct(P) = Struct(base) /\ (~touched => P = base)
+BaseConstant == SameAsBase(Proj(BaseK(Cur, sym, added)))
 
-RestoreReturnsPrevious == act.br = "Restore" => sym = "third" /\ Proj(Cur) = base /\ EdgeOcc(Cur) = {}
-EdgesRoundTrip         == act.br = "RemoveEdges" => sym = "third" /\ Proj(Cur) = base
+RestoreReturnsPrevious == act.br = "Restore" => sym = "third" /\ SameAsBase(Proj(Cur)) /\ EdgeOcc(Cur) = {}
+EdgesRoundTrip         == act.br = "RemoveEdges" => sym = "third" /\ SameAsBase(Proj(Cur))
+
+\* adding the edge assemblies, calling scaleParamsRelatedToSymmetry with nothing assigned in between (no solve), removing
+\* them: the core is EXACTLY what it was before the edge assemblies were added (minus edge assemblies it already had, I2) --
+\* every parameter included, whatever happened earlier in the history.  addEdgeAssemblies ends by clearing the
+\* assigned-since-the-last-geometry-transformation flags precisely so that this holds.
+PurgedProj(P) == Proj(PurgeSet([at |-> P.at, loc |-> P.loc, nm |-> P.nm, bk |-> P.bk, nn |-> 0],
+                               {cc \in All : P.at[cc].num # NoNum /\ Line(cc) = 3}))
+EdgesScaleRoundTrip == trip = "ASR" => Proj(Cur) = PurgedProj(preEdge)
+\* the flag discipline itself: right after addEdgeAssemblies nothing counts as assigned
+AddEdgesClearsFlags == act.br = "AddEdges" => ~gflag
+
+\* the flow the converter exists for: add edges ; solve (every assembly gets the value of the part of it that is modelled) ;
+\* scaleParamsRelatedToSymmetry ; remove edges  ==  "combining two half-assemblies into a full one": every assembly holds
+\* what a solve on the edge-free core would have written
+HalvesCombine == flow = "combined" => \A cc \in Occ(Cur) : at[cc].ps = PhysPs(Cur, sym, cc)
 
 \* with the innermost edge cell filled, an edge copy and its source each report half of the assembly: nothing is
 \* counted twice (the code's detection rule; when <<2,-1>> is a hole the rule does not fire and the copy counts fully)
@@ -399,7 +506,8 @@ ObsT ==
                        \* purge them): their volume is not projected (<<0, 0>>), and where one is present the core's total
                        \* volume is not compared (volOk).
                        vqv  |-> IF Line(cc) = 3 /\ at[cc].k = 0 THEN <<0, 0>> ELSE RFrac(1, f),
-                       ps   |-> at[cc].ps,                                       \* volume-integrated parameters / built value
+                       ps   |-> at[cc].ps,                                       \* volume-integrated parameters / built value (<<0,0>> = mixed)
+                       fx   |-> at[cc].fx,                                       \* scalar flux / adjoint flux as built (not recomputed)
                        other |-> ROne]],                                         \* every other parameter / built value
         byLoc  |-> SortedCells({cc \in All : byLoc[cc] # NoNum}),
         where  |-> [x \in 1..Len(al) |->                                         \* getAssemblyWithStringLocation over the hexagon
@@ -413,6 +521,7 @@ ObsT ==
         staleNames |-> Cardinality(byName \ Live(K)),
         staleBlks  |-> Cardinality(byBlk \ Live(K)),
         count  |-> Count(K),
+        parOk  |-> ParOk(K),                                                     \* parameter totals comparable (nothing mixed)
         pool   |-> 0,                                                            \* assemblies these operations sent to the spent fuel pool
         volOk  |-> ~\E cc \in Occ(K) : Line(cc) = 3 /\ at[cc].k = 0,
         shared |-> 0,                                                            \* objects shared between two assemblies
@@ -425,6 +534,6 @@ Obs == [d   |-> ObsT,
         full |-> FullCoef(Cur, sym)]
 \* identity of a node of the emitted graph: everything that decides the future, without the absolute names
 Vars == [pat |-> pat, sym |-> sym,
-         cells |-> LET cs == SortedCells(Occ(Cur)) IN [x \in 1..Len(cs) |-> <<cs[x], at[cs[x]].o, at[cs[x]].k, at[cs[x]].ps>>],
-         conv |-> conv, ec |-> ecAdded, gflag |-> gflag, lcache |-> lcache]
+         cells |-> LET cs == SortedCells(Occ(Cur)) IN [x \in 1..Len(cs) |-> <<cs[x], at[cs[x]].o, at[cs[x]].k, at[cs[x]].ps, at[cs[x]].fx>>],
+         conv |-> conv, ec |-> ecAdded, gflag |-> gflag]
 =============================================================================================================
